@@ -370,6 +370,46 @@ def suite_big_tiny(ctx, res, n):
                         "congruent to each other and must share one", {"case": case, "outlines": paths}, {"site": "c19-stored-once", "case": case["id"]})
 
 
+def mirror_poly_case(rng, fmt="picosvg"):
+    """an irregular polygon (no symmetry of its own) with copies reflected about a vertical and a horizontal line, within one glyph and in a second
+    glyph: reflections have determinant -1, and are congruent copies like any other (this class holds on the unchanged tree, also in OT-SVG)"""
+    n = rng.choice([5, 6])
+    pts = [(20, 20), (50, 24), (44, 40), (30, 52), (16, 38)] if n == 5 else [(18, 20), (48, 16), (54, 34), (40, 50), (22, 46), (12, 32)]
+    dx, dy = rng.randint(0, 10), rng.randint(0, 8)
+    pts = [(x + dx, y + dy) for x, y in pts]
+    d = lambda q: "M" + " L".join(f"{x},{y}" for x, y in q) + " Z"
+    mx = [(128 - x, y + 60) for x, y in pts]
+    sx = rng.choice([0, 30])
+    my = [(x + sx, 128 - y) for x, y in pts]
+    cols = ["#c00000", "#00aa00", "#0000cc", "#cc00cc"]
+    g0 = f'<path fill="{cols[0]}" d="{d(pts)}"/><path fill="{cols[1]}" d="{d(mx)}"/>'
+    g1 = f'<path fill="{cols[2]}" d="{d(my)}"/>'
+    n_copies = 3
+    if rng.random() < 0.5:
+        g1 += f'<path fill="{cols[3]}" d="{d([(128 - x, 128 - y) for x, y in pts])}"/>'     # both reflections = half turn
+        n_copies = 4
+    svgs = [f'<svg xmlns="http://www.w3.org/2000/svg" viewBox="0 0 128 128">{g}</svg>' for g in (g0, g1)]
+    cfg = {"color_format": fmt, "upem": 1024, "ascender": 950, "descender": -250, "width": 1275, "reuse_tolerance": 0.1, "keep_glyph_names": True}
+    return {"id": f"c19-mirror-poly:{fmt}:{rng.getrandbits(40)}", "seed": 0, "fmt": fmt, "svgs": svgs, "config": cfg,
+            "codepoints": [[0xE000], [0xE001]], "kinds": ["poly", "mirrorx", "mirrory"], "n_copies": n_copies, "family": "mirror-poly"}
+
+
+def suite_mirror_poly(ctx, res, n):
+    for i in range(n):
+        fmt = ["picosvg", "glyf_colr_1", "picosvg", "glyf_colr_0"][i % 4]
+        case = mirror_poly_case(ctx.rng, fmt)
+        out = fontgen.build(case)
+        res.count(key=("c19", case["id"]), nontrivial=True)
+        if "err" in out:
+            res.add_cex("valid sources failed to build: " + out["err"], {"case": case, "trace": out.get("trace")}, {"site": "c19-build", "case": case["id"]})
+            continue
+        paths, uses = count_outlines(case, out)
+        res.stat("judged:mirror-poly:" + fmt)
+        if paths != 1:
+            res.add_cex(f"{fmt}: a polygon and its reflected copies ({case['n_copies']} in all) are stored as {paths} outlines", {"case": case, "outlines": paths, "uses": uses},
+                        {"site": "c19-stored-once", "case": case["id"]})
+
+
 def suite(ctx, res, n):
     for i in range(n):
         fmt = FORMATS[i % len(FORMATS)]
@@ -420,6 +460,7 @@ def run(ctx, res):
     dset_tie.suite_disjoint_set(ctx, res, ctx.budget(300, 6000))
     suite(ctx, res, ctx.budget(60, 1500))
     suite_big_tiny(ctx, res, ctx.budget(8, 120))
+    suite_mirror_poly(ctx, res, ctx.budget(8, 120))
 
 
 def search(ctx, res, broken):
